@@ -203,6 +203,54 @@ def run(cx, rep):
                 rep.ob("C09.3", "reexport-import/%s" % v, reg,
                        "`import .. from './a'; export { X }` with an ImportReference::%s binding registers no export: the name resolves in TypeScript but is reported as unresolved here" % v,
                        "%s:%s" % (pb[0].file, a["line"]), sample={"import_kind": v, "registers_export": reg})
+    # ---------------------------------------------------------------- C09.5
+    rep.rule("C09.5", "a name taken from an import / re-export reference is resolved in the other file's export table")
+    n_addr = 0
+    for gid in sorted(F.hir):
+        f = F.fns.get(gid)
+        if f is None or not (f.file or "").endswith("frontend/mod.rs"):
+            continue
+        tree = F.hir[gid]
+        # binders introduced by patterns over import / re-export references
+        ref_binders = {}
+        for n in walk(tree["body"]):
+            pats = []
+            if n["k"] == "Match":
+                pats = [a["pat"] for a in n["arms"]]
+            elif n["k"] in ("Let", "LetStmt"):
+                pats = [n["pat"]]
+            for p in pats:
+                for x in walk(p):
+                    if x["k"] == "P.Struct" and re.search(r"(SymbolExport::SomethingOfOtherFile|ImportReference::(Named|Default|Star))$", x.get("def") or ""):
+                        for fl in x["fields"]:
+                            if fl["name"] in ("file", "file_name"):
+                                for b in walk(fl["pat"]):
+                                    if b["k"] == "P.Binding":
+                                        ref_binders[b.get("lid")] = (x["def"].rsplit("::", 2)[-2] + "::" + x["def"].rsplit("::", 1)[-1], b["name"])
+        if not ref_binders:
+            continue
+        D = Deriv(tree)
+        for st in walk(tree["body"]):
+            if st["k"] == "Struct" and (st.get("def") or "").endswith("ModuleItemAddress"):
+                fe = struct_field(st, "file")
+                ve = struct_field(st, "visibility")
+                if fe is None or ve is None:
+                    continue
+                src = [ref_binders[lid] for name, lid in lids_in(fe) if lid in ref_binders]
+                if not src:
+                    # through one let-alias
+                    for name, lid in lids_in(fe):
+                        for e in D.src.get(lid, []):
+                            src += [ref_binders[l2] for n2, l2 in lids_in(e) if l2 in ref_binders]
+                if not src:
+                    continue
+                n_addr += 1
+                vis = [x.get("def") for x in walk(ve) if x["k"] == "Path" and "Visibility::" in (x.get("def") or "")]
+                ok = vis == ["Visibility::Export"]
+                rep.ob("C09.5", "%s/%s" % (f.id.rsplit("::", 1)[-1] + "@" + (f.impl_self or "").split("<")[0].rsplit("::", 1)[-1], src[0][0]), ok,
+                       "%s builds the address of a name in ANOTHER file (taken from %s) with %s: names reached through an import or re-export must be looked up among that file's exports, otherwise a private declaration of the same name is bound or the name is reported missing" % (
+                           f.id, src[0][0], vis), "%s:%s" % (f.file, st["line"]), sample={"fn": f.id.rsplit("::", 1)[-1], "reference": src[0][0], "visibility": vis})
+    rep.floor("C09.5", "cross-file addresses", n_addr, 6)
     # ---------------------------------------------------------------- C09.2
     rep.rule("C09.2", "identity of named types carries the file: derived Eq/Ord/Hash over all fields")
     for adt in ("TypeAddress", "RuntypeName", "RuntypeUUID", "ModuleItemAddress", "BffFileName"):
